@@ -24,9 +24,9 @@ ASSUMPTIONS = [
 # shapes dropped for flavours where they are open known findings (filled from triage; see known_findings.json)
 DROPPED = {
     "*": ("create_rename_onto",),                       # KF-12
-    ("path", "id"): ("dirmove_create_inside",),         # KF-14b
-    ("id", "path"): ("dirmove_create_inside",),
-    ("path", "path"): ("dirmove_create_inside",),
+    ("path", "id"): ("dirmove_create_inside", "dirmove_rmtree"),         # KF-14b, KF-52
+    ("id", "path"): ("dirmove_create_inside", "dirmove_rmtree"),
+    ("path", "path"): ("dirmove_create_inside", "dirmove_rmtree"),
 }
 
 
